@@ -12,6 +12,8 @@ point is not in the lists (torn = not applied; SQLite's journalling is trusted, 
                               T ≤ B; the `put` transactions are consecutive and the durable blocks are exactly the first B
                               blocks that were added; every round whose waitCommit returned is ≤ B; OpenLedger yields
                               latest = B and, for EVERY tracker, state = replay genesis (blocks 1..B).
+* `ack_durable`               FULL.  acknowledged (WaitForCommit / Ledger.Wait / LatestCommitted) ⇒ in every later recovered state:
+                              round ≤ reopened latest and the same block.
 * `recover_prefix_after_crash` the same for the reopened system itself (`recover`), so the statement also covers traces with
                               several crashes.
 * `recover_prefix_tracker_lag` FULL.  The tracker store may be at ANY earlier transaction boundary (a suffix of its committed
@@ -70,6 +72,25 @@ theorem recover_prefix_at (ap : Tid → σ → Blk → σ) (g : Tid → σ) (es 
   cases hc : run (init Blk) es with
   | none => simp [hc] at hrun
   | some c => exact ⟨c, rfl, recover_prefix ap g es c hc⟩
+
+/-- **acknowledged ⇒ durable.**  A round the ledger has acknowledged (the `waitCommit` step: WaitForCommit returned, the
+Ledger.Wait channel is closed, LatestCommitted's first component) is, after a crash at ANY later instant of ANY continuation
+of the trace (further crashes included), at most the round of the reopened ledger, and the reopened ledger holds for it the
+very block that was added. -/
+theorem ack_durable (es fs : List (Ev Blk)) (s c : Sys Blk)
+    (hrun : run (init Blk) es = some s) (r : Nat) (hack : r ∈ s.confirmed) (hpos : 0 < r)
+    (hcont : run s fs = some c) :
+    r ≤ (recover c).lastCommitted ∧ (blocksOf (recover c).btx)[r - 1]? = s.chain[r - 1]? := by
+  have hi := inv_run (inv_init (fun (_ : Unit) (u : Unit) (_ : Blk) => u) (fun _ => ())) hrun
+  obtain ⟨_, x, hx⟩ := mono_run hcont
+  have hr : r ≤ (blocksOf s.btx).length := by
+    have := hi.conf_ok r hack; rw [hi.lc_eq] at this; exact this
+  have hlt : r - 1 < (blocksOf s.btx).length := by omega
+  constructor
+  · show r ≤ blockRound c.btx
+    unfold blockRound; rw [hx, List.length_append]; omega
+  · show (blocksOf c.btx)[r - 1]? = s.chain[r - 1]?
+    rw [hx, hi.chain_eq, List.getElem?_append_left hlt, List.getElem?_append_left hlt]
 
 /-- the reopened system is again a system for which everything above holds (several crashes) -/
 theorem recover_prefix_after_crash (ap : Tid → σ → Blk → σ) (g : Tid → σ) (es : List (Ev Blk)) (s : Sys Blk)
@@ -170,6 +191,10 @@ example : ∃ s, run (init Nat) demo = some s ∧ RecoversPrefix apL gL s.btx s.
       rw [h] at this; simpa using this
     · have : (run (init Nat) demo).map (fun s => s.chain.length) = some 3 := by decide
       rw [h] at this; simpa using this
+
+/-- the hypotheses of `ack_durable` are met in `demo`: round 2 is acknowledged and the trace continues with a crash -/
+example : (run (init Nat) demo).map (fun s => (decide (2 ∈ s.confirmed), (run s [.crash, .put 23]).isSome)) = some (true, true) := by
+  decide
 
 /-- a commit scheduled past the durable block round is not a step of the model -/
 example : run (init Nat) [.put 11, .put 12, .flushBegin 1, .flushCommit, .notifyCommit (some 2)] = none := by decide
